@@ -244,6 +244,23 @@ def incrStep (m : MState) (line : String) : MState × String :=
         (m2, ((ansRun.splitOn " keys=").headD "") ++ " " ++ showKeys st' m.defs)
       | none => (m, "model-stuck")
     | _, _, _ => (m, "bad-op")
+  | ["runel", g, ks, ch, gs] => match g.toNat?, parseInts ks, parseChanges ch, parseGroups gs with
+    | some g, some ks, some chs, some groups =>
+      if !(m.defs.lookup g).isSome || groups.any (·.isEmpty) || !(groups.all (·.all (fun k => (m.defs.lookup k).isSome))) then (m, "bad-op") else
+      -- three parties: Run(g) in flight, an eviction pending on the exclusive lock, late Runs that
+      -- arrive behind the pending eviction. Run(g) holds the read lock: it completes on the old inputs;
+      let (m1, ansRun) := showRun m [[g]] true
+      if ansRun == "model-stuck" then (m, "model-stuck") else
+      -- then the eviction (keys looked up under the lock) and its input changes;
+      let env' := chs.foldl (fun e (kv : Nat × Nat) => setEnv e kv.1 (Int.ofNat kv.2)) m1.env
+      match evict (4 ^ (m.defs.length + 1) + ks.length + 2) m1.st ks with
+      | some st' =>
+        -- then the late Runs, as concurrent Runs on the state the eviction left
+        let (m3, ansLate) := showRun { m1 with st := st', env := env' } groups false
+        if ansLate == "model-stuck" then (m, "model-stuck") else
+        (m3, ((ansRun.splitOn " keys=").headD "") ++ " ;; " ++ ansLate)
+      | none => (m, "model-stuck")
+    | _, _, _, _ => (m, "bad-op")
   | ["dump"] => (m, showDump m.st m.defs)
   | _ => (m, "bad-op")
 
@@ -433,6 +450,33 @@ def specRun (s : SState) (groups : List (List Key)) (withFlags : Bool) (ans : St
       else (s', "holds")
     | _, _, _, _, _ => ({ s' with lost := true }, s!"fails run-did-not-return-results [{ans}]")
 
+/-- `runel`: Run(g) in flight, an EvictWithCleanup pending behind it, late Runs arriving behind the
+    pending eviction. Everything must return, and the history must be equivalent to
+    Run(g); Evict(+input change); the late Runs (from-scratch values, exact executed sets). -/
+def specRunEl (s : SState) (g : Key) (ks : List Key) (chs : List (Nat × Nat)) (groups : List (List Key))
+    (ans : String) : SState × String :=
+  if ans.startsWith "hang" then
+    ({ s with lost := true }, s!"fails run-did-not-return behind-pending-evict [{ans}]")
+  else if s.lost then (s, "skip") else
+  if !s.dirty.isEmpty then ({ s with lost := true }, "skip") else
+  match ans.splitOn " ;; " with
+  | [a, b] =>
+    (match specExpect s [[g]] true, field a "r", field a "x", field a "c", field a "m" with
+    | some (s1, wr, wx, wc, _), some r, some x, some c, some mx =>
+      if r != wr then ({ s with lost := true }, s!"fails value-differs-from-fresh in-flight-run got[{r}] want[{wr}]")
+      else if x != wx then ({ s with lost := true }, s!"fails executed-set in-flight-run got[{x}] want[{wx}]")
+      else if c != wc then ({ s with lost := true }, s!"fails changed-flag in-flight-run got[{c}] want[{wc}]")
+      else if mx != "-" then ({ s with lost := true }, s!"fails changed-flag-inconsistent-within-run keys[{mx}]")
+      else
+        let s2 := specEvictChange s1 ks chs
+        if !s2.dirty.isEmpty then ({ s2 with lost := true }, "skip")
+        else
+          let (s3, v) := specRun s2 groups false b
+          (s3, if v.startsWith "fails" then v ++ " (late run behind a pending eviction)" else v)
+    | none, _, _, _, _ => (s, "skip")
+    | _, _, _, _, _ => ({ s with lost := true }, s!"fails run-did-not-return-results [{ans}]"))
+  | _ => ({ s with lost := true }, s!"fails run-did-not-return-results [{ans}]")
+
 def incrSpec (s : SState) (line ans : String) : SState × String :=
   match words line with
   | ["new", _] => ({ s with cached := [], dirty := [], lost := false, unmemoizedEvict := false }, "skip")
@@ -464,6 +508,9 @@ def incrSpec (s : SState) (line ans : String) : SState × String :=
   | ["runev", g, ks, ch] => match g.toNat?, parseInts ks, parseChanges ch with
     | some g, some ks, some chs => specRunEv s g ks chs ans
     | _, _, _ => (s, "skip")
+  | ["runel", g, ks, ch, gs] => match g.toNat?, parseInts ks, parseChanges ch, parseGroups gs with
+    | some g, some ks, some chs, some groups => specRunEl s g ks chs groups ans
+    | _, _, _, _ => (s, "skip")
   | _ => (s, "skip")
 
 
@@ -754,6 +801,21 @@ def incrFailStep (m : FMState) (line : String) : FMState × String :=
           ({ m with fst := st1, absValid := false }, s!"r=E:pan{p} x={showCounts newLog} c=- m=- {showKeys st1.s m.defs}")
         | _ => (m, "model-unsupported")
     | _ => (m, "bad-op")
+  | ["runel", g, ks, ch, gs] => match g.toNat?, parseInts ks, parseChanges ch, parseGroups gs with
+    | some g, some ks, some chs, some groups =>
+      if !(m.defs.lookup g).isSome || groups.any (·.isEmpty) || !(groups.all (·.all (fun k => (m.defs.lookup k).isSome))) then (m, "bad-op") else
+      if !m.absValid then (m, "model-mixed-case") else
+      -- parallel class only: Run(g); eviction with its input changes; the late Runs
+      let (m1, ansRun) := showRunPar m [[g]]
+      if ansRun == "model-stuck" then (m, "model-stuck") else
+      if ansRun.startsWith "r=E:" then (m, "model-unsupported") else
+      let env' := chs.foldl (fun e (kv : Nat × Nat) => setEnv e kv.1 (Int.ofNat kv.2)) m1.env
+      let m2 := { m1 with abs := evictAbs m1.abs ks, env := env' }
+      let (m3, ansLate) := showRunPar m2 groups
+      if ansLate == "model-stuck" then (m, "model-stuck") else
+      if ansLate.startsWith "r=E:" then (m, "model-unsupported") else
+      (m3, ((ansRun.splitOn " keys=").headD "") ++ " ;; " ++ ansLate)
+    | _, _, _, _ => (m, "bad-op")
   | ["dump"] => if m.seqValid then (m, showDump m.fst.s m.defs) else (m, "model-mixed-case")
   | ["permits"] => (m, "free")
   | _ => (m, "bad-op")
@@ -888,6 +950,26 @@ def incrFailSpec (s : FSState) (line ans : String) : FSState × String :=
   | "runp" :: ks => match ks.mapM String.toNat? with
     | some ks => specFailRun s [ks] ans
     | none => (s, "skip")
+  | ["runel", g, _, ch, gs] => match g.toNat?, parseChanges ch, parseGroups gs with
+    | some g, some chs, some groups =>
+      if ans.startsWith "hang" then ({ s with diverged := true }, s!"fails run-did-not-return behind-pending-evict [{ans}]")
+      else
+        -- the in-flight Run on the old inputs, the late Runs on the changed ones; the cycles quoted
+        -- after " ~ " belong to either
+        let (body, tail) : String × String := match ans.splitOn " ~ " with
+          | [b] => (b, "")
+          | b :: rest => (b, " ~ " ++ " ~ ".intercalate rest)
+          | [] => ("", "")
+        (match body.splitOn " ;; " with
+        | [a, b] =>
+          let (s1, v1) := specFailRun s [[g]] (a ++ tail)
+          let s2 := { s1 with env := chs.foldl (fun e (kv : Nat × Nat) => setEnv e kv.1 (Int.ofNat kv.2)) s1.env }
+          if v1.startsWith "fails" then (s2, v1)
+          else
+            let (s3, v2) := specFailRun s2 groups (b ++ tail)
+            (s3, if v2.startsWith "fails" then v2 else if v1 == "holds" || v2 == "holds" then "holds" else "skip")
+        | _ => specFailRun s ([g] :: groups) ans)
+    | _, _, _ => (s, "skip")
   | ["permits"] => if ans == "free" then (s, "holds") else (s, s!"fails semaphore-permits-not-released [{ans}]")
   | _ => (s, "skip")
 
